@@ -49,6 +49,15 @@ CLAIMS = {
    text="Theorems C15_parse_roundtrip (parse(serialise(records)) = records for every record list with value-less keys, empty and multi-line values), C15_prefix_generated (Gallina generated from configKeyMatchesPrefix = model) and C15_prefix_boundary (prefix p selects exactly p and p.<rest>). Tie: real git is the reference parser: generated configuration across system/global/local/command scopes, GetConfig via apidriver vs the model on git's raw listing vs an independent NUL-first split, and refgroups visible in --json vs the RefOpts model.",
    note="Trusted: Coq kernel, go2coq+GoSem, extraction, harness, git 2.39.5 `config --list -z`. The value-less-key defect was repaired (6bdd1c1; C15_parse_old_refuted). Known finding: subsection ending in '.'.",
    technique="Coq proof + translator bridge + differential correspondence with git as reference parser"),
+
+ "C11": dict(
+   text="Theorems on the model of sizes/output.go: C11_row_visible / C11_hidden_iff (a row is emitted iff saturated or alert >= threshold), C11_marker (int(alert) stars, 30 '!' above 30 or saturated), C11_monotone (raising the threshold only hides rows, markers unchanged), C11_verbose (threshold <= 0 shows every metric; uses non-negativity of the binary64 model), C11_empty, C11_saturated. Tie: TableString/JSON on synthetic vectors at k*ref-1, k*ref, k*ref+1, caps and zero x 18 thresholds: exact table bytes and exact levelOfConcern vs the model, JSON v2 value = v1 value, sub-sequence check across thresholds.",
+   note="Trusted: Coq kernel, extraction, harness; float64(uint64), binary64 division, ParseFloat and fmt padding are modelled as correctly rounded / documented (Float64.v), validated by exact comparison on every run. Lifting of C11_monotone from items to whole tables (headers, blank rows) is checked by the sub-sequence test, not proved.",
+   technique="Coq proof on executable model + differential correspondence on boundary vectors"),
+ "C19": dict(
+   text="Theorem C19_footnotes: for every sequence of citation requests (arbitrary bytes) the footnotes are the distinct non-empty texts in order of first citation and every citation is [k] with k the position of its text (so equal texts share a number, numbering is 1..k, every footnote is cited). Tie: CLI runs (fakegit + real git) on names with spaces, quotes, backslashes, control and non-UTF-8 bytes, 300-byte names: JSON parsed and key sets compared with a plain-name twin; tables parsed for citation/footnote consistency.",
+   note="Trusted: Coq kernel, harness, encoding/json (validity checked by parsing every output). Known finding: a name containing LF forges table lines.",
+   technique="Coq proof on footnote model + output parsers over hostile names"),
 }
 
 m = {
